@@ -93,6 +93,11 @@ fn strategy() -> BoxedStrategy<C01Case>
 fn build(case: &C01Case) -> (ModelTree, Vec<u32>, Option<u32>)
 {
     let mut cfg = ConfigSpec::simple(case.structured, None);
+    // a fourth macro that shares its NAME with the first one but lives in another module
+    cfg.macros.push(crate::gen::MacroCfg {
+        module: "tracing".into(),
+        name: "info".into(),
+    });
     let mut existing: Vec<u32> = Vec::new();
     let mut files = Vec::new();
     for (fi, f) in case.files.iter().enumerate()
@@ -108,7 +113,7 @@ fn build(case: &C01Case) -> (ModelTree, Vec<u32>, Option<u32>)
         for (k, lay) in f
         {
             let mut s = StmtSpec {
-                macro_idx: (*lay as usize) % 3,
+                macro_idx: (*lay as usize) % 4,
                 qualified: lay & 8 != 0,
                 target: if lay & 16 != 0 { Some("t".into()) } else { None },
                 kvs: if lay & 32 != 0
